@@ -606,6 +606,36 @@ fn variants(len: usize, olen: usize) {
     assert!(st == ss && &st[..] == &src[..len], "P:C20 into_static changes the contents");
     core::mem::forget((t, s, ot, os, st, ss));
 }
+/// Views of ONE storage (clones of a `Static` value, one of them shortened from the back or the
+/// front) are values like any other: equality, ordering and hash are those of their bytes, and
+/// agree with the borrowed variant holding the same bytes (seed C20d: a "same storage" fast path
+/// in `eq` compared the start address only).
+fn shared_storage(len: usize) {
+    let src: [u8; MAXL] = kani::any();
+    let base = Bytes::copy_from_slice(&src[..len]);
+    let a = CowBytes::Static(base.clone());
+    let mut b = CowBytes::Static(base.clone());
+    let mut c = CowBytes::Static(base.clone());
+    let n: usize = kani::any();
+    kani::assume(n <= len);
+    b.truncate(n);
+    let m: usize = kani::any();
+    kani::assume(m <= len);
+    c.advance(m);
+    let tb = CowBytes::Temporary(&src[..n]);
+    let tc = CowBytes::Temporary(&src[m..len]);
+    assert!(b.as_ref() == tb.as_ref() && c.as_ref() == tc.as_ref(), "P:C20 truncate / advance of a shared view changed the wrong bytes");
+    assert!((a == b) == (a.as_ref() == b.as_ref()) && (b == a) == (a.as_ref() == b.as_ref()), "P:C20 eq of two views of one storage is not bytewise equality");
+    assert!((a == c) == (a.as_ref() == c.as_ref()) && (b == c) == (b.as_ref() == c.as_ref()), "P:C20 eq of two views of one storage is not bytewise equality");
+    assert!((a == b) == (a == tb) && (a == c) == (a == tc), "P:C20 eq depends on the variant (shared storage)");
+    assert!(a.partial_cmp(&b) == a.as_ref().partial_cmp(b.as_ref()), "P:C20 ordering of two views of one storage is not that of their bytes");
+    assert!(!(a == b) || hash_of(&a) == hash_of(&b), "P:C20 equal values with different hashes");
+    kani::cover!(n < len && len > 0, "?a strictly shorter view of the same storage");
+    kani::cover!(true, "shared-storage comparisons evaluated");
+    core::mem::forget((a, b, c, tb, tc));
+}
+h!(c20_shared_storage_l3, 12, shared_storage(3));
+h!(c20_shared_storage_l1, 12, shared_storage(1));
 h!(c20_variants_l0_l0, 12, variants(0, 0));
 h!(c20_variants_l2_l2, 12, variants(2, 2));
 h!(c20_variants_l3_l2, 12, variants(3, 2));
